@@ -16,7 +16,9 @@ from rules.layout import r04_5_reader
 from rules.utilfn import r04_9
 from rules.utilfn import r20_7
 from rules.teddy import r15_4
-RULES = [('R06.6', r06_6), ('R04.4', r04_4), ('R05.9', r05_9), ('R03.6', r03_6), ('R20.1', r20_1), ('R20.2', r20_2), ('R20.3', r20_3), ('R20.5', r20_5), ('R04.1', r04_1), ('R05.5', r05_5), ('R05.1', r05_1), ('R05.2', r05_2), ('R04.5i', r04_5_iter), ('R03.2', r03_2), ('R20.6', r20_6), ('R11.1', r11_1), ('R04.5w', r04_5_writer), ('R04.5r', r04_5_reader), ('R04.9', r04_9), ('R20.7', r20_7), ('R15.4', r15_4)]
+from rules.utilfn import r04_10
+from rules.utilfn import r03_7
+RULES = [('R06.6', r06_6), ('R04.4', r04_4), ('R05.9', r05_9), ('R03.6', r03_6), ('R20.1', r20_1), ('R20.2', r20_2), ('R20.3', r20_3), ('R20.5', r20_5), ('R04.1', r04_1), ('R05.5', r05_5), ('R05.1', r05_1), ('R05.2', r05_2), ('R04.5i', r04_5_iter), ('R03.2', r03_2), ('R20.6', r20_6), ('R11.1', r11_1), ('R04.5w', r04_5_writer), ('R04.5r', r04_5_reader), ('R04.9', r04_9), ('R20.7', r20_7), ('R15.4', r15_4), ('R04.10', r04_10), ('R03.7', r03_7)]
 EXPLANATION = """R20.1 in build_trie the pattern id is PatternID::new(i) of the enumerate() index, pattern_lens.push(len) and the min/max updates happen
 once per pattern before any pruning exit, add_match(prev, pid) uses that pid. R20.2 provenance chains: each metadata getter of the three
 automata returns its namesake field; both converters initialise pattern_lens / match_kind / min_pattern_len / max_pattern_len / prefilter
